@@ -147,6 +147,55 @@ func main() {
 			e.Fail("PairsFunc|sequence", rp, "PairsFunc(n=%d) called with %v, want %v", n, pf, want)
 		}
 	}
+	// astronomically long slices of zero-size elements (they cost no memory): counts and lengths only,
+	// with sizes chosen so that a handful of pieces / windows result
+	for _, n := range []int{1<<53 + 1, 1<<53 + 3, 1 << 62, math.MaxInt} {
+		s := make([]struct{}, n)
+		for _, size := range []int{n, n - 1, n/2 + 1, n / 2, n/3 + 1, 1 << 53, 1<<53 + 2, math.MaxInt} {
+			if size < 1 || size < n/4 {
+				continue
+			}
+			rp := map[string]any{"n": n, "size": size, "element": "struct{}"}
+			e.Input(true)
+			e.Call()
+			want := n / size
+			if n%size != 0 {
+				want++
+			}
+			var chunks [][]struct{}
+			if p, m := enum.Catch(func() { chunks = slices.Chunk(s, size) }); p {
+				e.Fail("Chunk|panic", rp, "Chunk(n=%d zero-size elements, size=%d) panicked: %s", n, size, m)
+			} else {
+				total := 0
+				for _, c := range chunks {
+					total += len(c)
+				}
+				if len(chunks) != want || total != n {
+					e.Fail("Chunk|count", rp, "Chunk(n=%d zero-size elements, size=%d) returned %d pieces holding %d elements, want %d pieces holding all %d", n, size, len(chunks), total, want, n)
+				}
+			}
+			calls, total := 0, 0
+			e.Call()
+			if p, m := enum.Catch(func() { slices.ChunkFunc(s, size, func(c []struct{}) { calls++; total += len(c) }) }); p {
+				e.Fail("ChunkFunc|panic", rp, "ChunkFunc(n=%d zero-size elements, size=%d) panicked: %s", n, size, m)
+			} else if calls != want || total != n {
+				e.Fail("ChunkFunc|sequence", rp, "ChunkFunc(n=%d zero-size elements, size=%d) made %d calls over %d elements, want %d calls over %d", n, size, calls, total, want, n)
+			}
+			if size >= n-3 {
+				wantW := 0
+				if size <= n {
+					wantW = n - size + 1
+				}
+				e.Call()
+				var wins [][]struct{}
+				if p, m := enum.Catch(func() { wins = slices.Windowed(s, size) }); p {
+					e.Fail("Windowed|panic", rp, "Windowed(n=%d zero-size elements, size=%d) panicked: %s", n, size, m)
+				} else if len(wins) != wantW {
+					e.Fail("Windowed|sequence", rp, "Windowed(n=%d zero-size elements, size=%d) returned %d windows, want %d", n, size, len(wins), wantW)
+				}
+			}
+		}
+	}
 	e.Finish(fmt.Sprintf("every slice length n in 0..%d x every size in 1..%d, position-tagged elements, each length with 0, 1, 3 and n+1 elements of spare capacity behind it; partition laws for Chunk/ChunkFunc/Windowed/WindowedFunc/Pairs/PairsFunc; non-trivial = remainder >= 2 or size > n", maxN, maxN+2))
 }
 
